@@ -122,7 +122,8 @@ def known_match(v, known):
             continue
         if e.get('property') != v['property'] or e.get('class') != v['class']:
             continue
-        if e.get('site') != v['site']:
+        sites = e.get('site')
+        if v['site'] not in (sites if isinstance(sites, list) else [sites]):
             continue
         m = e.get('match', {})
         if all(v.get('match', {}).get(k) == val for k, val in m.items()):
@@ -582,10 +583,34 @@ def run_check(check, tier, seed, jobs, budget_s, repo, n_runs=None):
     exit_code = 0
     n_new = 0
     lines = []
+    shown = set()
+    # every listed known finding of this property that carries a witness
+    # run is re-executed: it is reported as KNOWN-FINDING while it still
+    # reproduces, and noted when it no longer does
+    for k_idx, k in enumerate(known):
+        if k.get('status') != 'known' or k.get('property') != check.PROPERTY:
+            continue
+        if 'witness' not in k:
+            continue
+        _, st, pl, _, _ = run_isolated(check, cfg, 0, k['witness'],
+                                       cfg.get('wall_cap', 300))
+        if st == 'violation' and known_match(pl, [k]) is not None:
+            lines.append('KNOWN-FINDING: property={} {} [{} / {}; witness '
+                         'run reproduces]'.format(check.PROPERTY,
+                                                  k.get('what', ''),
+                                                  pl['class'], pl['site']))
+            shown.add(k_idx)
+        else:
+            lines.append('note: the witness of a listed known finding no '
+                         'longer reproduces ({}): {}'.format(
+                             st, k.get('what', '')[:120]))
     for sig in sorted(res['viol']):
         i, seed_i, run, payload = res['viol'][sig][0]
         k = known_match(payload, known)
         if k is not None:
+            if known.index(k) in shown:
+                continue
+            shown.add(known.index(k))
             lines.append('KNOWN-FINDING: property={} {} [{} / {}; {} run(s) '
                          'in this batch, first seed {}]'.format(
                              payload['property'], k.get('what', ''),
